@@ -1,6 +1,7 @@
 SPECIFICATION TraceSpec
 CONSTANTS
- NThreads = 8
+ NThreads = 4
+ Env <- TraceEnv
 CONSTRAINT Progress
 POSTCONDITION Accepted
 CHECK_DEADLOCK FALSE
